@@ -44,6 +44,11 @@ func (n c36node) Execute(t *incremental.Task) (int, error) {
 		d := t.Report().Levelf(report.Level(1+(n.ID+i)%2), "node %d diagnostic %d", n.ID, i).Apply(report.Snippet(sp))
 		if i%2 == 1 {
 			d.Apply(report.Tag(fmt.Sprintf("tag-%d", n.ID%3)))
+			if n.ID%2 == 0 {
+				// the same tagged diagnostic once more: canonicalisation collapses the pair, which
+				// compacts whatever slice the collector handed it
+				t.Report().Levelf(report.Level(1+(n.ID+i)%2), "node %d diagnostic %d", n.ID, i).Apply(report.Snippet(sp), report.Tag(fmt.Sprintf("tag-%d", n.ID%3)))
+			}
 		}
 	}
 	for i := 0; i < n.G.yield[n.ID]; i++ {
